@@ -1,6 +1,7 @@
 _P = 'xdoctest.parser:DoctestParser.'
 PROPERTY = {
     'id': 'C13',
+    'extra': ['bounded.c08_lines.run'],
     'contract_modules': ['doctest_example', 'doctest_part', 'parser'],
     'functions': [_P + '_label_docsrc_lines#labels', 'xdoctest.parser:_complete_source',
                   _P + '_package_groups#offsets', _P + '_package_chunk',
@@ -18,6 +19,7 @@ PROPERTY = {
               '_package_groups: the line number handed to each chunk is the number of lines of all earlier chunks (part offsets are true line indices); '
               'text chunks are yielded as their joined lines and never packaged as code',
               'parse: tabs are expanded before the indentation is measured and before labelling (preconditions of the callees)'],
+        'B': ['the real freeform / google parsers on random docstrings: every (doctest line + part offset) points at the docstring line that holds the first source line of that part, and failed_lineno() at the statement that raised (bounded/c08_lines.py)'],
         'T': ['_complete_source (generator driving the tokenizer-based balance check): yields the line and one pair per further line it consumes',
               '_package_chunk (ast-based slicing)', 're.search spans of INDENT_RE (leading spaces of a non-blank line)'],
         'N/A': ['_group_labeled_lines (three passes over lists of (label, line) pairs and nested groups) is not under contract: that the grouping '
